@@ -4,6 +4,8 @@ import Sm9.Proofs.GtOrder
 import Sm9.Proofs.MillerNeg
 import Sm9.Proofs.MillerFrobEquivariant
 import Sm9.Proofs.Bilinear
+import Sm9.Proofs.Prime
+import Mathlib.GroupTheory.OrderOfElement
 /-!
 # C01 — Pairing is bilinear, non-degenerate and trivial on the identity
 
@@ -172,5 +174,45 @@ example : ∃ g, Api.pairing (G.one : G1) (G.one : G2) = .ok g ∧
     Api.pairing ((G.one : G1).mul 2) ((G.one : G2).mul (-1)) = .ok (g ^ ((2 : Fr).val * (-1 : Fr).val)) := by
   obtain ⟨g, h1, h2, _⟩ := bilinear _ _ G1.one_valid G2.one_valid 1 (one_nsmul _).symm 2 (-1)
   exact ⟨g, h1, h2⟩
+
+/-! ## non-degeneracy on all of `⟨P1⟩ × ⟨P2⟩`
+
+With `g₀ = e(P1, P2) ≠ 1` (kernel evaluation), `g₀^r = 1` and `r` prime, bilinearity gives: `e([a]P1, [b]P2) = g₀^(ab)` is one
+exactly when `a = 0` or `b = 0` in `Z_r`. -/
+theorem nondegenerate (P : G1) (Q : G2) (hP : G1.Valid P) (hQ : G2.Valid Q) (a b : Fr)
+    (ha : G1.toAff P = a.val • G1.toAff (G.one : G1)) (hb : G2.toAff Q = b.val • G2.toAff (G.one : G2)) :
+    Api.pairing P Q = .ok Fq12.one ↔ (a = 0 ∨ b = 0) := by
+  have h1 : G2.toAff (G.one : G2) = 1 • G2.toAff (G.one : G2) := (one_nsmul _).symm
+  obtain ⟨g0, hg0, hgb⟩ := Miller.api_pairing_nsmul_right (G.one : G1) (G.one : G2) G1.one_valid G2.one_valid 1 h1
+    b.val Q hQ hb
+  obtain ⟨g1, hg1, hga⟩ := Miller.api_pairing_nsmul_left (G.one : G1) Q G1.one_valid hQ b.val hb a.val P hP ha
+  have e : g1 = g0 ^ b.val := by
+    have := hg1.symm.trans hgb; injection this
+  subst e
+  rw [← pow_mul] at hga
+  have hr : g0 ^ r = 1 := Miller.api_pairing_pow_r (G.one : G1) (G.one : G2) G1.one_valid G2.one_valid 1 h1 g0 hg0
+  have hne : g0 ≠ 1 := by
+    intro h
+    apply generators_nondegenerate.1
+    rw [hg0, h]; rfl
+  have hord : orderOf g0 = r := by
+    have hd := orderOf_dvd_of_pow_eq_one hr
+    rcases (Nat.dvd_prime r_prime).1 hd with h | h
+    · exact absurd (orderOf_eq_one_iff.1 h) hne
+    · exact h
+  rw [hga]
+  constructor
+  · intro h
+    have h' : g0 ^ (b.val * a.val) = 1 := by
+      have := Outcome.ok.inj h; exact this
+    have hd : r ∣ b.val * a.val := by rw [← hord]; exact orderOf_dvd_of_pow_eq_one h'
+    rcases (Nat.Prime.dvd_mul r_prime).1 hd with h | h
+    · right; exact Fin.ext (Nat.eq_zero_of_dvd_of_lt h b.isLt)
+    · left; exact Fin.ext (Nat.eq_zero_of_dvd_of_lt h a.isLt)
+  · rintro (h | h)
+    · subst h; show Outcome.ok (g0 ^ (b.val * (0 : Fr).val)) = _
+      rw [show ((0 : Fr).val) = 0 from rfl, Nat.mul_zero, pow_zero]; rfl
+    · subst h; show Outcome.ok (g0 ^ ((0 : Fr).val * a.val)) = _
+      rw [show ((0 : Fr).val) = 0 from rfl, Nat.zero_mul, pow_zero]; rfl
 
 end Sm9.C01
